@@ -1,7 +1,885 @@
-//! C14: not implemented yet.
-use crate::util::Args;
+//! C14: the SMT-LIB reader (patronus::smt::{parse_expr, parse_command, read_command}; the response readers
+//! parse_get_value_response / parse_get_unsat_assumptions_response are reachable only through
+//! SolverContext::{get_value, get_unsat_assumptions} and are driven through a scripted fake solver process).
+//!
+//! One case per line, `(case ID (kind K) ...)`:
+//!   rt     (expr E) (st S..) (text "..") (impl R) (envs ..) (indices ..)          writer output of E read back by parse_expr
+//!   text   (st S..) (text "..") (origin "..") (impl R)                            any text (malformed variants, hand-written) through parse_expr
+//!   val    (text "value text") (response "((x value))") (impl R) (via "..")       value text through get_value (fake solver)
+//!   cmd    (cmd C) (st S..) (text "..") (impl RC)                                 writer output of a command read back by parse_command
+//!   script (st S..) (lines "l1" "l2" ..) (impl (step RC)..)                       read_command until EOF / panic / hang
+//!   gua    (st S..) (response "..") (impl (ok E..)|(err ..)|(panic ..))           get_unsat_assumptions (fake solver)
+//! R = (ok E) | (err "msg") | (panic "loc");  RC = (ok C) | (err "msg") | (panic "loc") | (hang) | (eof)
+use crate::c05::*;
+use crate::dump::*;
+use crate::exprgen::lit_value;
+use crate::rng::Rng;
+use crate::sexp::{Sexp, build_expr, read_cases};
+use crate::util::*;
+use baa::{BitVecOps, BitVecValue};
+use patronus::expr::*;
+use patronus::smt::{Logic, SmtCommand, Solver, SolverContext, parse_command, read_command, serialize_cmd};
+use rustc_hash::FxHashMap;
+use std::collections::HashSet;
+use std::io::{BufRead, Read, Write};
 
-pub fn run(_args: &Args) {
-    eprintln!("C14: harness module not implemented yet");
-    std::process::exit(2);
+type SymTab = FxHashMap<String, ExprRef>;
+
+fn symtab_of(ctx: &Context, syms: &[ExprRef]) -> SymTab {
+    let mut st = SymTab::default();
+    for s in syms {
+        st.insert(ctx.get_symbol_name(*s).unwrap().to_string(), *s);
+    }
+    st
+}
+
+fn dump_st(ctx: &Context, syms: &[ExprRef]) -> String {
+    syms.iter().map(|s| format!(" {}", dump_expr(ctx, *s))).collect()
+}
+
+fn dump_res(ctx: &Context, r: &Result<Result<ExprRef, String>, String>, stats: &mut Stats) -> String {
+    match r {
+        Ok(Ok(e)) => format!("(ok {})", dump_expr(ctx, *e)),
+        Ok(Err(m)) => format!("(err {})", quote(m)),
+        Err(_) => {
+            stats.bump("impl_panic_loc", &last_panic_loc());
+            format!("(panic {})", quote(&last_panic_loc()))
+        }
+    }
+}
+
+fn run_parse_expr(ctx: &mut Context, st: &SymTab, text: &str) -> Result<Result<ExprRef, String>, String> {
+    guarded(|| patronus::smt::parse_expr(ctx, st, text.as_bytes()).map_err(|e| format!("{e}")))
+}
+
+/// the term text inside `(get-value (TERM))`
+fn term_text(ctx: &Context, e: ExprRef) -> Option<String> {
+    let t = write_cmd(ctx, &SmtCommand::GetValue(e)).ok()?;
+    let t = t.trim_end();
+    Some(t.strip_prefix("(get-value (")?.strip_suffix("))")?.to_string())
+}
+
+fn indices_of(ty: Type) -> Vec<BitVecValue> {
+    let mut indices = vec![];
+    if let Type::Array(a) = ty {
+        if a.index_width <= 6 {
+            for i in 0..(1u64 << a.index_width) {
+                indices.push(BitVecValue::from_u64(i, a.index_width));
+            }
+        } else {
+            indices.push(BitVecValue::zero(a.index_width));
+            indices.push(BitVecValue::ones(a.index_width));
+        }
+    }
+    indices
+}
+
+// ------------------------------------------------------------------------------------------ malformed variants
+
+fn variant(rng: &mut Rng, text: &str) -> (String, &'static str) {
+    let b = text.as_bytes();
+    let paren_pos: Vec<usize> = b.iter().enumerate().filter(|(_, c)| **c == b'(' || **c == b')').map(|(i, _)| i).collect();
+    match rng.below(8) {
+        0 | 1 => {
+            // proper prefix at a random byte (kept on a character boundary)
+            if text.len() < 2 {
+                return (String::new(), "prefix-empty");
+            }
+            let mut k = 1 + rng.below(text.len() as u64 - 1) as usize;
+            while !text.is_char_boundary(k) {
+                k -= 1;
+            }
+            (text[..k].to_string(), "prefix-char")
+        }
+        2 => {
+            // proper prefix that ends after a complete token
+            let cut: Vec<usize> = b.iter().enumerate().filter(|(_, c)| **c == b' ').map(|(i, _)| i).collect();
+            if cut.is_empty() {
+                return (String::new(), "prefix-empty");
+            }
+            let k = *rng.pick(&cut);
+            (text[..k].to_string(), "prefix-token")
+        }
+        3 => {
+            if paren_pos.is_empty() {
+                return (format!("{text})"), "extra-close-end");
+            }
+            let k = *rng.pick(&paren_pos);
+            let mut s = text.to_string();
+            s.remove(k);
+            (s, if b[k] == b'(' { "delete-open" } else { "delete-close" })
+        }
+        4 => (format!("{text})"), "extra-close-end"),
+        5 => {
+            let k = if paren_pos.is_empty() { 0 } else { *rng.pick(&paren_pos) };
+            let mut s = text.to_string();
+            s.insert(k, if rng.chance(1, 2) { '(' } else { ')' });
+            (s, "insert-paren")
+        }
+        6 => (format!("({text}"), "extra-open-start"),
+        _ => {
+            let junk = *rng.pick(&["x", "#b1", "\"str\"", "|q", ";", "; c\n", ";\n", ";\nx", "\"", "(", "1.5", "|a|"]);
+            (format!("{text} {junk}"), "suffix")
+        }
+    }
+}
+
+// ------------------------------------------------------------------------------------------ value grammar
+
+/// solver-style value text of the given type, with the width/shape pool of the other generators
+fn gen_value(rng: &mut Rng, ty: Type, depth: u32, lets: &mut Vec<(String, Type)>, stats: &mut Stats) -> String {
+    // a bound name of this type
+    if !lets.is_empty() && rng.chance(1, 4) {
+        let cands: Vec<String> = lets.iter().filter(|(_, t)| *t == ty).map(|(n, _)| n.clone()).collect();
+        if !cands.is_empty() {
+            stats.bump("value_form", "let-var");
+            return rng.pick(&cands).clone();
+        }
+    }
+    if depth > 0 && rng.chance(1, 6) {
+        // (let ((name value)) body)
+        let bty = if rng.chance(1, 2) {
+            ty
+        } else if rng.chance(1, 2) {
+            Type::BV(*rng.pick(&[1u32, 2, 4, 8, 33]))
+        } else {
+            Type::Array(ArrayType { index_width: *rng.pick(&[1u32, 2, 3]), data_width: *rng.pick(&[1u32, 2, 8]) })
+        };
+        let name = format!("{}{}", rng.pick(&["a!", "x", "_let_", "k!"]), rng.below(4));
+        let v = gen_value(rng, bty, depth - 1, lets, stats);
+        lets.push((name.clone(), bty));
+        let body = gen_value(rng, ty, depth - 1, lets, stats);
+        lets.pop();
+        stats.bump("value_form", "let");
+        return format!("(let (({name} {v})) {body})");
+    }
+    match ty {
+        Type::BV(w) => {
+            let v = lit_value(rng, w);
+            if w == 1 && rng.chance(2, 3) {
+                stats.bump("value_form", "bool");
+                return if v.is_true() { "true".into() } else { "false".into() };
+            }
+            match rng.below(10) {
+                0..=4 => {
+                    stats.bump("value_form", "#b");
+                    format!("#b{}", v.to_bit_str())
+                }
+                5..=7 if w % 4 == 0 => {
+                    stats.bump("value_form", "#x");
+                    let h = v.to_hex_str();
+                    let h = format!("{:0>width$}", h, width = (w / 4) as usize);
+                    if rng.chance(1, 2) { format!("#x{}", h.to_uppercase()) } else { format!("#x{h}") }
+                }
+                8 if w <= 64 => {
+                    stats.bump("value_form", "(_ bvN w)");
+                    format!("(_ bv{} {w})", v.to_u64().unwrap())
+                }
+                _ => {
+                    stats.bump("value_form", "#b");
+                    format!("#b{}", v.to_bit_str())
+                }
+            }
+        }
+        Type::Array(a) => {
+            let sort = format!("(Array {} {})", own_elem_sort(a.index_width), own_elem_sort(a.data_width));
+            if depth == 0 || rng.chance(1, 3) {
+                stats.bump("value_form", "as-const");
+                let d = gen_value(rng, Type::BV(a.data_width), 0, lets, stats);
+                format!("((as const {sort}) {d})")
+            } else {
+                stats.bump("value_form", "store");
+                let base = gen_value(rng, ty, depth - 1, lets, stats);
+                let i = gen_value(rng, Type::BV(a.index_width), 0, lets, stats);
+                let d = gen_value(rng, Type::BV(a.data_width), 0, lets, stats);
+                format!("(store {base} {i} {d})")
+            }
+        }
+    }
+}
+
+// ------------------------------------------------------------------------------------------ fake solver (drives get_value / get_unsat_assumptions)
+
+const FAKE_SOLVER: &str = r#"#!/bin/sh
+# scripted solver: every response-producing command is answered with the next line of $FAKE_SOLVER_RESPONSES
+# (byte 0x01 inside a line stands for a line break)
+exec 3< "$FAKE_SOLVER_RESPONSES"
+SOH=$(printf '\001')
+while IFS= read -r line; do
+  case "$line" in
+    "(exit"*) exit 0;;
+    "(check-sat"*|"(get-value"*|"(get-unsat-assumptions"*)
+      if IFS= read -r resp <&3; then
+        case "$resp" in
+          *"$SOH"*) printf '%s\n' "$resp" | tr '\001' '\n';;
+          *) printf '%s\n' "$resp";;
+        esac
+      else echo '(error "out of responses")'; fi;;
+  esac
+done
+"#;
+
+struct Fake {
+    dir: String,
+}
+
+impl Fake {
+    fn new(scratch: &str) -> Fake {
+        let dir = format!("{scratch}.fake");
+        std::fs::create_dir_all(&dir).unwrap();
+        let exe = format!("{dir}/bitwuzla");
+        std::fs::write(&exe, FAKE_SOLVER).unwrap();
+        use std::os::unix::fs::PermissionsExt;
+        std::fs::set_permissions(&exe, std::fs::Permissions::from_mode(0o755)).unwrap();
+        let old = std::env::var("PATH").unwrap_or_default();
+        if !old.starts_with(&dir) {
+            unsafe { std::env::set_var("PATH", format!("{dir}:{old}")) };
+        }
+        Fake { dir }
+    }
+    /// a context whose response-producing commands are answered with `responses` in order
+    fn start(&self, responses: &[String]) -> patronus::smt::SmtLibSolverCtx {
+        let path = format!("{}/responses", self.dir);
+        let enc: Vec<String> = responses.iter().map(|r| r.replace('\n', "\x01")).collect();
+        std::fs::write(&path, enc.join("\n") + "\n").unwrap();
+        unsafe { std::env::set_var("FAKE_SOLVER_RESPONSES", &path) };
+        patronus::smt::BITWUZLA.start(None).expect("start fake solver")
+    }
+}
+
+// ------------------------------------------------------------------------------------------ commands
+
+fn dump_smt_cmd(ctx: &Context, c: &SmtCommand) -> String {
+    let d = |e: &ExprRef| dump_expr(ctx, *e);
+    match c {
+        SmtCommand::Exit => "(exit)".into(),
+        SmtCommand::CheckSat => "(checksat)".into(),
+        SmtCommand::SetLogic(l) => format!("(setlogic {})", logic_name(l)),
+        SmtCommand::SetOption(k, v) => format!("(setoption {} {})", quote(k), quote(v)),
+        SmtCommand::SetInfo(k, v) => format!("(setinfo {} {})", quote(k), quote(v)),
+        SmtCommand::Assert(e) => format!("(assert {})", d(e)),
+        SmtCommand::DeclareConst(s) => format!("(declare {})", d(s)),
+        SmtCommand::DefineConst(s, e) => format!("(define {} {})", d(s), d(e)),
+        SmtCommand::CheckSatAssuming(es) => format!("(csa{})", es.iter().map(|e| format!(" {}", d(e))).collect::<String>()),
+        SmtCommand::Push(n) => format!("(push {n})"),
+        SmtCommand::Pop(n) => format!("(pop {n})"),
+        SmtCommand::GetValue(e) => format!("(getvalue {})", d(e)),
+        SmtCommand::GetUnsatAssumptions => "(gua)".into(),
+    }
+}
+
+/// a reader that reports a hang (by panicking) when it is polled again and again after the end of the input
+struct Limited<'a> {
+    data: &'a [u8],
+    pos: usize,
+    eof_reads: usize,
+}
+
+impl<'a> Read for Limited<'a> {
+    fn read(&mut self, buf: &mut [u8]) -> std::io::Result<usize> {
+        let n = std::cmp::min(buf.len(), self.data.len() - self.pos);
+        buf[..n].copy_from_slice(&self.data[self.pos..self.pos + n]);
+        self.pos += n;
+        Ok(n)
+    }
+}
+
+impl<'a> BufRead for Limited<'a> {
+    fn fill_buf(&mut self) -> std::io::Result<&[u8]> {
+        if self.pos >= self.data.len() {
+            self.eof_reads += 1;
+            if self.eof_reads > 1000 {
+                panic!("HANG: read_command keeps reading after the end of the input");
+            }
+        }
+        Ok(&self.data[self.pos..])
+    }
+    fn consume(&mut self, amt: usize) {
+        self.pos += amt;
+    }
+}
+
+// ------------------------------------------------------------------------------------------ driver of the cases
+
+struct Out {
+    lines: Vec<String>,
+    distinct: HashSet<String>,
+}
+
+impl Out {
+    fn push(&mut self, stats: &mut Stats, line: String) {
+        self.distinct.insert(line[line.find("(kind").unwrap_or(0)..].to_string());
+        stats.sample(&line, 4);
+        self.lines.push(line);
+    }
+}
+
+fn case_rt(id: &str, ctx: &mut Context, root: ExprRef, envs: &[Env], stats: &mut Stats) -> Option<String> {
+    let syms = symbols_of(ctx, &[root]);
+    let st = symtab_of(ctx, &syms);
+    let text = term_text(ctx, root)?;
+    let res = run_parse_expr(ctx, &st, &text);
+    let ty = root.get_type(ctx);
+    let indices = indices_of(ty);
+    stats.bump("rt_result", match &res { Ok(Ok(_)) => "ok", Ok(Err(_)) => "err", Err(_) => "panic" });
+    let envs_txt: String = envs.iter().map(|e| format!(" {}", dump_env(ctx, e))).collect();
+    let idx_txt: String = indices.iter().map(|i| format!(" {}", bv_tok(i))).collect();
+    Some(format!(
+        "(case {id} (kind rt) (expr {}) (st{}) (text {}) (impl {}) (envs{envs_txt}) (indices{idx_txt}))",
+        dump_expr(ctx, root),
+        dump_st(ctx, &syms),
+        quote(&text),
+        dump_res(ctx, &res, stats)
+    ))
+}
+
+fn case_text(id: &str, ctx: &mut Context, syms: &[ExprRef], text: &str, origin: &str, stats: &mut Stats) -> String {
+    let st = symtab_of(ctx, syms);
+    let res = run_parse_expr(ctx, &st, text);
+    stats.bump("text_origin", origin);
+    stats.bump(&format!("text_result:{origin}"), match &res { Ok(Ok(_)) => "ok", Ok(Err(_)) => "err", Err(_) => "panic" });
+    format!("(case {id} (kind text) (st{}) (text {}) (origin {}) (impl {}))", dump_st(ctx, syms), quote(text), quote(origin), dump_res(ctx, &res, stats))
+}
+
+fn dump_cmd_res(ctx: &Context, r: &Result<Result<SmtCommand, String>, String>, stats: &mut Stats) -> String {
+    match r {
+        Ok(Ok(c)) => format!("(ok {})", dump_smt_cmd(ctx, c)),
+        Ok(Err(m)) => format!("(err {})", quote(m)),
+        Err(m) => {
+            if m.starts_with("HANG") {
+                "(hang)".to_string()
+            } else {
+                stats.bump("impl_panic_loc", &last_panic_loc());
+                format!("(panic {})", quote(&last_panic_loc()))
+            }
+        }
+    }
+}
+
+fn case_cmd(id: &str, ctx: &mut Context, c: &CmdCase, stats: &mut Stats) -> String {
+    let exprs = cmd_exprs(c);
+    let syms = symbols_of(ctx, &exprs);
+    let intro: Option<ExprRef> = match c {
+        CmdCase::Declare(s) | CmdCase::Define(s, _) => Some(*s),
+        _ => None,
+    };
+    let syms: Vec<ExprRef> = syms.into_iter().filter(|s| Some(*s) != intro).collect();
+    let st = symtab_of(ctx, &syms);
+    let (ctxt, kind) = dump_cmd(ctx, c);
+    stats.bump("cmd_kind", kind);
+    let text = match write_cmd(ctx, &cmd_to_impl(c)) {
+        Ok(t) => t,
+        Err(_) => "<panic>".to_string(),
+    };
+    let res = guarded(|| parse_command(ctx, &st, text.as_bytes()).map_err(|e| format!("{e}")));
+    stats.bump(&format!("cmd_result:{kind}"), match &res { Ok(Ok(_)) => "ok", Ok(Err(_)) => "err", Err(_) => "panic" });
+    format!("(case {id} (kind cmd) (cmd {ctxt}) (st{}) (text {}) (impl {}))", dump_st(ctx, &syms), quote(&text), dump_cmd_res(ctx, &res, stats))
+}
+
+/// arbitrary command text (alternative spellings, malformed variants) through parse_command
+fn case_cmdtext(id: &str, ctx: &mut Context, syms: &[ExprRef], text: &str, origin: &str, stats: &mut Stats) -> String {
+    let st = symtab_of(ctx, syms);
+    let res = guarded(|| parse_command(ctx, &st, text.as_bytes()).map_err(|e| format!("{e}")));
+    stats.bump("cmdtext_origin", origin);
+    stats.bump(&format!("cmdtext_result:{origin}"), match &res { Ok(Ok(_)) => "ok", Ok(Err(_)) => "err", Err(_) => "panic" });
+    format!("(case {id} (kind cmdtext) (st{}) (text {}) (origin {}) (impl {}))", dump_st(ctx, syms), quote(text), quote(origin), dump_cmd_res(ctx, &res, stats))
+}
+
+fn case_script(id: &str, ctx: &mut Context, syms: &[ExprRef], lines: &[String], ncmds: u64, cmds_txt: &str, stats: &mut Stats) -> String {
+    let mut st = symtab_of(ctx, syms);
+    let data: String = lines.concat();
+    let mut inp = Limited { data: data.as_bytes(), pos: 0, eof_reads: 0 };
+    let mut steps = String::new();
+    for _ in 0..(lines.len() + 2) {
+        let res: Result<Result<Option<SmtCommand>, String>, String> = guarded(|| read_command(&mut inp, ctx, &mut st).map_err(|e| format!("{e}")));
+        match res {
+            Ok(Ok(Some(c))) => steps.push_str(&format!(" (ok {})", dump_smt_cmd(ctx, &c))),
+            Ok(Ok(None)) => {
+                steps.push_str(" (eof)");
+                stats.bump("script_end", "eof");
+                break;
+            }
+            Ok(Err(m)) => {
+                steps.push_str(&format!(" (err {})", quote(&m)));
+                stats.bump("script_end", "err");
+                break;
+            }
+            Err(m) => {
+                if m.starts_with("HANG") {
+                    steps.push_str(" (hang)");
+                    stats.bump("script_end", "hang");
+                } else {
+                    steps.push_str(&format!(" (panic {})", quote(&last_panic_loc())));
+                    stats.bump("script_end", "panic");
+                    stats.bump("impl_panic_loc", &last_panic_loc());
+                }
+                break;
+            }
+        }
+    }
+    let ltxt: String = lines.iter().map(|l| format!(" {}", quote(l))).collect();
+    format!("(case {id} (kind script) (st{}) (lines{ltxt}) (cmds{cmds_txt}) (ncmds {ncmds}) (impl{steps}))", dump_st(ctx, syms))
+}
+
+pub fn run(args: &Args) {
+    if let Err(m) = guarded(|| run_inner(args)) {
+        eprintln!("C14 harness panicked: {m} @ {}", last_panic_loc());
+        std::process::exit(2);
+    }
+}
+
+fn run_inner(args: &Args) {
+    let mut rng = Rng::new(args.seed);
+    let mut outf = std::io::BufWriter::new(std::fs::File::create(&args.out).expect("out file"));
+    let mut stats = Stats::default();
+    let mut out = Out { lines: vec![], distinct: HashSet::new() };
+    let scratch = format!("{}.scratch", args.out);
+    let only = args.get("only").unwrap_or("all").to_string();
+    let solvers: Vec<String> = args.get("solver").map(|s| s.split(',').map(|x| x.to_string()).collect()).unwrap_or_default();
+
+    // ---- replay of dumped cases
+    if let Some(path) = args.get("cases-in") {
+        let fake = Fake::new(&scratch);
+        for c in read_cases(path).iter() {
+            let id = c.list()[1].atom().to_string();
+            let kind = c.field("kind").map(|k| k[0].atom().to_string()).unwrap_or_default();
+            let mut ctx = Context::default();
+            let syms: Vec<ExprRef> = c.field("st").unwrap_or(&[]).iter().map(|s| build_expr(&mut ctx, s)).collect();
+            let line = match kind.as_str() {
+                "rt" => {
+                    let root = build_expr(&mut ctx, &c.field("expr").unwrap()[0]);
+                    let envs: Vec<Env> = c.field("envs").unwrap_or(&[]).iter().map(|e| parse_env(&mut ctx, e)).collect();
+                    case_rt(&id, &mut ctx, root, &envs, &mut stats).unwrap_or_default()
+                }
+                "text" => {
+                    let text = c.field("text").unwrap()[0].atom().to_string();
+                    let origin = c.field("origin").map(|o| o[0].atom().to_string()).unwrap_or_default();
+                    case_text(&id, &mut ctx, &syms, &text, &origin, &mut stats)
+                }
+                "cmd" => {
+                    let cc = parse_cmd(&mut ctx, &c.field("cmd").unwrap()[0]);
+                    case_cmd(&id, &mut ctx, &cc, &mut stats)
+                }
+                "cmdtext" => {
+                    let text = c.field("text").unwrap()[0].atom().to_string();
+                    let origin = c.field("origin").map(|o| o[0].atom().to_string()).unwrap_or_default();
+                    case_cmdtext(&id, &mut ctx, &syms, &text, &origin, &mut stats)
+                }
+                "script" => {
+                    let lines: Vec<String> = c.field("lines").unwrap_or(&[]).iter().map(|l| l.atom().to_string()).collect();
+                    let ncmds = c.field("ncmds").map(|n| n[0].num()).unwrap_or(0);
+                    let cmds_txt: String = c.field("cmds").unwrap_or(&[]).iter().map(|x| format!(" {}", sexp_to_string(x))).collect();
+                    case_script(&id, &mut ctx, &syms, &lines, ncmds, &cmds_txt, &mut stats)
+                }
+                "val" => {
+                    let text = c.field("text").unwrap()[0].atom().to_string();
+                    let response = c.field("response").unwrap()[0].atom().to_string();
+                    let via = c.field("via").map(|o| o[0].atom().to_string()).unwrap_or_default();
+                    let mut sc = fake.start(&[response.clone()]);
+                    let q = ctx.bv_symbol("q", 1);
+                    let res = guarded(|| sc.get_value(&mut ctx, q).map_err(|e| format!("{e}")));
+                    format!("(case {id} (kind val) (text {}) (response {}) (impl {}) (via {}))", quote(&text), quote(&response), dump_res(&ctx, &res, &mut stats), quote(&via))
+                }
+                "gua" => {
+                    let response = c.field("response").unwrap()[0].atom().to_string();
+                    run_gua(&id, &fake, &mut ctx, &syms, &response, &mut stats)
+                }
+                _ => String::new(),
+            };
+            if !line.is_empty() {
+                out.push(&mut stats, line);
+            }
+        }
+    }
+
+    // ---- generated cases
+    let mut val_queue: Vec<(String, String, String, String)> = vec![]; // (id, value text, response, via)
+    let mut gua_queue: Vec<(String, Vec<(String, WidthInt)>, String)> = vec![];
+    let mut solver_batch: Vec<(String, SolverBatch)> = solvers.iter().map(|s| (s.clone(), SolverBatch::default())).collect();
+    let mut solver_meta: Vec<(String, Type)> = vec![];
+    for n in 0..args.count {
+        let id = format!("{n}");
+        let mut r = rng.fork();
+        let mut ctx = Context::default();
+        let pick = if only == "all" { r.below(100) } else { 0 };
+        let kind = match only.as_str() {
+            "rt" => "rt",
+            "text" => "text",
+            "val" => "val",
+            "cmd" => "cmd",
+            "cmdtext" => "cmdtext",
+            "script" => "script",
+            "gua" => "gua",
+            "solverval" => "solverval",
+            _ => match pick {
+                0..=34 => "rt",
+                35..=59 => "text",
+                60..=74 => "val",
+                75..=82 => "cmd",
+                83..=86 => "cmdtext",
+                87..=94 => "script",
+                _ => "gua",
+            },
+        };
+        stats.bump("case_kind", kind);
+        match kind {
+            "rt" | "text" | "solverval" => {
+                let plain = kind != "rt" || r.chance(1, 3);
+                let root = {
+                    let mut g = Gen::new(&mut ctx, &mut r);
+                    g.plain_names = plain || args.get("names") == Some("plain");
+                    let depth = 1 + g.rng.below(if kind == "rt" { 5 } else { 3 }) as u32;
+                    let root = g.root(depth);
+                    for (k, v) in g.ops.iter() {
+                        stats.bump_n("ops", k, *v);
+                    }
+                    root
+                };
+                let syms = symbols_of(&ctx, &[root]);
+                if kind == "rt" {
+                    for s in syms.iter() {
+                        stats.bump("name_class", name_class(ctx.get_symbol_name(*s).unwrap()));
+                    }
+                    position_hist(&ctx, root, &mut stats);
+                    let envs: Vec<Env> = (0..2).map(|_| random_env(&ctx, &mut r, &syms)).collect();
+                    if let Some(line) = case_rt(&id, &mut ctx, root, &envs, &mut stats) {
+                        out.push(&mut stats, line);
+                    }
+                } else if kind == "text" && r.chance(1, 4) {
+                    // well-formed terms with operators and forms the writer never emits (n-ary, bvult/bvslt/distinct, let scopes)
+                    let w = match root.get_type(&ctx) {
+                        Type::BV(w) => w,
+                        Type::Array(_) => continue,
+                    };
+                    let (b, c) = {
+                        let mut g = Gen::new(&mut ctx, &mut r);
+                        g.plain_names = true;
+                        g.used = syms.iter().map(|s| (g.ctx.get_symbol_name(*s).unwrap().to_string(), s.get_type(g.ctx))).collect();
+                        (g.bv(w, 1), g.bv(w, 1))
+                    };
+                    let all_syms = symbols_of(&ctx, &[root, b, c]);
+                    let (Some(ta), Some(tb), Some(tc)) = (term_text(&ctx, root), term_text(&ctx, b), term_text(&ctx, c)) else { continue };
+                    let shadow = all_syms.iter().find(|s| s.get_type(&ctx) == Type::BV(w)).map(|s| ctx.get_symbol_name(*s).unwrap().to_string());
+                    let (bool_ops, bv_ops): (&[&str], &[&str]) = (&["and", "or", "xor", "="], &["bvand", "bvor", "bvxor", "bvadd", "bvmul"]);
+                    let t = match r.below(9) {
+                        0 => format!("(bvult {ta} {tb})"),
+                        1 => format!("(bvslt {ta} {tb})"),
+                        2 => format!("(distinct {ta} {tb})"),
+                        3 => {
+                            let op = if w == 1 { *r.pick(bool_ops) } else { *r.pick(bv_ops) };
+                            format!("({op} {ta} {tb} {tc})")
+                        }
+                        4 => format!("(let ((tmp!1 {ta})) (= tmp!1 (let ((tmp!2 {tb})) (ite (= tmp!2 tmp!1) tmp!2 {tc}))))"),
+                        5 => match &shadow {
+                            // the let-bound name shadows a declared symbol only inside the let
+                            Some(x) if !x.contains(' ') => format!("(= (let (({x} {ta})) {x}) {x})"),
+                            _ => format!("(= {ta} {tb} {tc})"),
+                        },
+                        6 => format!("(let ((a {ta}) (b {tb})) (= a b))"),
+                        7 => format!("(=> (= {ta} {tb}) (= {tb} {tc}) (= {ta} {tc}))"),
+                        _ => format!("(ite (bvult {ta} {tb}) {tc} (({ta})))"),
+                    };
+                    let line = case_text(&id, &mut ctx, &all_syms, &t, "extra-forms", &mut stats);
+                    out.push(&mut stats, line);
+                } else if kind == "text" {
+                    let Some(text) = term_text(&ctx, root) else { continue };
+                    let (v, origin) = variant(&mut r, &text);
+                    let line = case_text(&id, &mut ctx, &syms, &v, origin, &mut stats);
+                    out.push(&mut stats, line);
+                } else {
+                    // real solver answers: collected in one session per solver, parsed below through get_value
+                    let Some(text) = term_text(&ctx, root) else { continue };
+                    let env = random_env(&ctx, &mut r, &syms);
+                    let decls: Vec<String> = syms.iter().map(|s| write_cmd(&ctx, &SmtCommand::DeclareConst(*s)).unwrap_or_default()).collect();
+                    let ty = root.get_type(&ctx);
+                    let nonlit_aconst = crate::exprgen::collect_nodes(&ctx, root)
+                        .iter()
+                        .any(|n| matches!(&ctx[*n], Expr::ArrayConstant { e, .. } if !matches!(ctx[*e], Expr::BVLiteral(_))));
+                    // the whole term (also array-typed ones: the answer is then a store chain / const array)
+                    let mut script = String::new();
+                    if let Some(s) = solver_script(&ctx, &decls, &text, Type::BV(1), &env, &[]) {
+                        script.push_str(&s);
+                        for (name, b) in solver_batch.iter_mut() {
+                            if name == "cvc5" && nonlit_aconst {
+                                continue;
+                            }
+                            b.add(&id, &script);
+                        }
+                        solver_meta.push((id.clone(), ty));
+                    }
+                }
+            }
+            "val" => {
+                let ty = if r.chance(1, 2) {
+                    Type::BV(*r.pick(&[1u32, 1, 2, 3, 4, 8, 16, 32, 33, 64, 65, 128, 129]))
+                } else {
+                    Type::Array(ArrayType { index_width: *r.pick(&[1u32, 1, 2, 3, 5, 8, 32]), data_width: *r.pick(&[1u32, 1, 2, 4, 8, 33, 64]) })
+                };
+                let depth = r.below(4) as u32;
+                let mut lets = vec![];
+                let v = gen_value(&mut r, ty, depth, &mut lets, &mut stats);
+                let (v, via) = if r.chance(1, 6) {
+                    let (m, origin) = variant(&mut r, &v);
+                    (m, format!("grammar:{origin}"))
+                } else {
+                    (v, "grammar".to_string())
+                };
+                let term = *r.pick(&["x", "|a b|", "(select m #b01)", "(f x y)", "((_ extract 3 0) x)", "\"s\""]);
+                let response = match r.below(12) {
+                    0 => format!("(({term} {v})"),
+                    1 => format!("({term} {v})"),
+                    2 => format!("(({v}))"),
+                    3 => format!("(({term} {v})) ; trailing"),
+                    _ => format!("(({term} {v}))"),
+                };
+                // get_value waits for more lines while the answer has more opening than closing parentheses (it would
+                // block on the scripted solver): such texts go through parse_expr instead
+                let balance: i64 = response.chars().map(|c| if c == '(' { 1 } else if c == ')' { -1 } else { 0 }).sum();
+                if balance > 0 || response.contains('\n') {
+                    let line = case_text(&id, &mut ctx, &[], &v, &format!("value-{via}"), &mut stats);
+                    out.push(&mut stats, line);
+                } else {
+                    val_queue.push((id, v, response, via));
+                }
+            }
+            "cmd" => {
+                let c = {
+                    let mut g = Gen::new(&mut ctx, &mut r);
+                    g.plain_names = g.rng.chance(1, 2);
+                    gen_cmd(&mut g, &mut stats)
+                };
+                let line = case_cmd(&id, &mut ctx, &c, &mut stats);
+                out.push(&mut stats, line);
+            }
+            "cmdtext" => {
+                let c = {
+                    let mut g = Gen::new(&mut ctx, &mut r);
+                    g.plain_names = true;
+                    gen_cmd(&mut g, &mut stats)
+                };
+                let exprs = cmd_exprs(&c);
+                let intro: Option<ExprRef> = match &c {
+                    CmdCase::Declare(s) | CmdCase::Define(s, _) => Some(*s),
+                    _ => None,
+                };
+                let syms: Vec<ExprRef> = symbols_of(&ctx, &exprs).into_iter().filter(|s| Some(*s) != intro).collect();
+                let Ok(text) = write_cmd(&ctx, &cmd_to_impl(&c)) else { continue };
+                let text = text.trim_end().to_string();
+                let (t, origin) = match r.below(6) {
+                    0 if text.starts_with("(declare-const ") => {
+                        // (declare-fun n () T)
+                        let rest = &text["(declare-const ".len()..];
+                        let sp = rest.find(' ').unwrap_or(0);
+                        (format!("(declare-fun {} (){}", &rest[..sp], &rest[sp..]), "declare-fun")
+                    }
+                    0 | 1 if text.starts_with("(define-fun ") => {
+                        // (define-const n T e)
+                        (text.replacen("(define-fun ", "(define-const ", 1).replacen(" () ", " ", 1), "define-const")
+                    }
+                    2 => (format!("; comment\n{text} ; trailing"), "comments"),
+                    _ => {
+                        let (v, o) = variant(&mut r, &text);
+                        (v, o)
+                    }
+                };
+                let line = case_cmdtext(&id, &mut ctx, &syms, &t, origin, &mut stats);
+                out.push(&mut stats, line);
+            }
+            "script" => {
+                // a few commands as the writer prints them, one per line; sometimes cut / with comments and blank lines
+                let mut lines: Vec<String> = vec![];
+                let mut cmds_txt = String::new();
+                let mut pre_syms: Vec<ExprRef> = vec![];
+                {
+                    let mut g = Gen::new(&mut ctx, &mut r);
+                    g.plain_names = g.rng.chance(2, 3);
+                    let k = 1 + g.rng.below(4);
+                    let mut cmds = vec![];
+                    for _ in 0..k {
+                        cmds.push(gen_cmd(&mut g, &mut stats));
+                    }
+                    drop(g);
+                    let mut declared: Vec<ExprRef> = vec![];
+                    for c in cmds.iter() {
+                        for s in symbols_of(&ctx, &cmd_exprs(c)) {
+                            let intro = matches!(c, CmdCase::Declare(x) | CmdCase::Define(x, _) if *x == s);
+                            if !intro && !declared.contains(&s) && !pre_syms.contains(&s) {
+                                pre_syms.push(s);
+                            }
+                        }
+                        if let CmdCase::Declare(x) | CmdCase::Define(x, _) = c {
+                            declared.push(*x);
+                        }
+                        if let Ok(t) = write_cmd(&ctx, &cmd_to_impl(c)) {
+                            lines.push(t);
+                            cmds_txt.push_str(&format!(" {}", dump_cmd(&ctx, c).0));
+                        }
+                    }
+                }
+                let mut ncmds = lines.len() as u64;
+                match r.below(8) {
+                    0 => lines.insert(0, "; a comment line\n".to_string()),
+                    1 => lines.insert(0, "   \n".to_string()),
+                    2 => {
+                        // the last command broken over two lines
+                        if let Some(l) = lines.pop() {
+                            if let Some(p) = l.find(' ') {
+                                lines.push(format!("{}\n", &l[..p]));
+                                lines.push(l[p + 1..].to_string());
+                            } else {
+                                lines.push(l);
+                            }
+                        }
+                    }
+                    3 => {
+                        // truncated last command
+                        if let Some(l) = lines.pop() {
+                            let (v, _) = variant(&mut r, l.trim_end());
+                            lines.push(format!("{v}\n"));
+                            ncmds -= 1;
+                            cmds_txt.clear();
+                        }
+                    }
+                    4 => {
+                        if let Some(l) = lines.last_mut() {
+                            *l = l.trim_end().to_string(); // no final newline
+                        }
+                    }
+                    _ => {}
+                }
+                // for the variants that keep every command intact the originals are recorded (the oracle compares them)
+                // lines as read_line delivers them (a quoted symbol may contain a line break)
+                let lines: Vec<String> = lines.concat().split_inclusive('\n').map(|l| l.to_string()).collect();
+                let line = case_script(&id, &mut ctx, &pre_syms, &lines, ncmds, &cmds_txt, &mut stats);
+                out.push(&mut stats, line);
+            }
+            _ => {
+                // get-unsat-assumptions responses over a few declared 1-bit and wider symbols
+                let names: Vec<(String, WidthInt)> = vec![("l0".into(), 1), ("l1".into(), 1), ("a b".into(), 1), ("v".into(), 4)];
+                let mut items: Vec<String> = vec![];
+                for _ in 0..r.below(4) {
+                    items.push(
+                        match r.below(6) {
+                            0 => "l0",
+                            1 => "(not l1)",
+                            2 => "|a b|",
+                            3 => "(= v #b0001)",
+                            4 => "(not (= v #x3))",
+                            _ => "unknown_sym",
+                        }
+                        .to_string(),
+                    );
+                }
+                let response = match r.below(8) {
+                    0 => format!("(({}) x)", items.join(" ")),
+                    1 => format!("{})", items.join(" ")),
+                    2 => format!("({})) x", items.join(" ")),
+                    _ => format!("({})", items.join(" ")),
+                };
+                gua_queue.push((id, names, response));
+            }
+        }
+    }
+
+    // ---- real solver answers become `val` cases
+    if !solver_batch.is_empty() && !solver_meta.is_empty() {
+        for (name, b) in solver_batch.iter() {
+            let outs = b.run(name, &scratch);
+            for (id, _ty) in solver_meta.iter() {
+                if let Some(o) = outs.get(id) {
+                    // "sat\n((term value))\n": keep the answer part
+                    let mut lines = o.lines();
+                    if lines.next() != Some("sat") {
+                        stats.bump("solver_answer", &format!("{name}:not-sat"));
+                        continue;
+                    }
+                    let answer: String = lines.collect::<Vec<_>>().join("\n");
+                    if answer.trim_start().starts_with("(error") || answer.trim().is_empty() {
+                        stats.bump("solver_answer", &format!("{name}:error"));
+                        continue;
+                    }
+                    let balance: i64 = answer.chars().map(|c| if c == '(' { 1 } else if c == ')' { -1 } else { 0 }).sum();
+                    if balance > 0 {
+                        stats.bump("solver_answer", &format!("{name}:unbalanced"));
+                        continue;
+                    }
+                    stats.bump("solver_answer", &format!("{name}:value"));
+                    val_queue.push((format!("{id}{name}"), String::new(), answer, format!("solver:{name}")));
+                }
+            }
+        }
+    }
+
+    // ---- fake-solver sessions
+    if !val_queue.is_empty() {
+        let fake = Fake::new(&scratch);
+        let responses: Vec<String> = val_queue.iter().map(|(_, _, resp, _)| resp.clone()).collect();
+        let mut ctx = Context::default();
+        let q = ctx.bv_symbol("q", 1);
+        let mut sc = fake.start(&responses);
+        for (id, text, response, via) in val_queue.iter() {
+            let res = guarded(|| sc.get_value(&mut ctx, q).map_err(|e| format!("{e}")));
+            stats.bump(&format!("val_result:{}", via.split(':').next().unwrap_or("")), match &res { Ok(Ok(_)) => "ok", Ok(Err(_)) => "err", Err(_) => "panic" });
+            let line = format!("(case {id} (kind val) (text {}) (response {}) (impl {}) (via {}))", quote(text), quote(response), dump_res(&ctx, &res, &mut stats), quote(via));
+            out.push(&mut stats, line);
+        }
+    }
+    if !gua_queue.is_empty() {
+        let fake = Fake::new(&scratch);
+        let mut ctx = Context::default();
+        let names = gua_queue[0].1.clone();
+        let syms: Vec<ExprRef> = names.iter().map(|(n, w)| ctx.bv_symbol(n, *w)).collect();
+        let mut responses = vec![];
+        for (_, _, r) in gua_queue.iter() {
+            responses.push("unsat".to_string());
+            responses.push(r.clone());
+        }
+        let mut sc = fake.start(&responses);
+        for s in syms.iter() {
+            sc.declare_const(&ctx, *s).expect("declare");
+        }
+        for (id, _, response) in gua_queue.iter() {
+            let line = gua_step(id, &mut sc, &mut ctx, &syms, response, &mut stats);
+            out.push(&mut stats, line);
+        }
+    }
+
+    for line in out.lines.iter() {
+        writeln!(outf, "{line}").unwrap();
+    }
+    stats.add("distinct_cases", out.distinct.len() as u64);
+    stats.write(&args.out);
+}
+
+fn gua_step(id: &str, sc: &mut patronus::smt::SmtLibSolverCtx, ctx: &mut Context, syms: &[ExprRef], response: &str, stats: &mut Stats) -> String {
+    let res: Result<Result<Vec<ExprRef>, String>, String> = guarded(|| {
+        sc.check_sat().map_err(|e| format!("{e}"))?;
+        sc.get_unsat_assumptions(ctx).map_err(|e| format!("{e}"))
+    });
+    let r = match &res {
+        Ok(Ok(es)) => format!("(ok{})", es.iter().map(|e| format!(" {}", dump_expr(ctx, *e))).collect::<String>()),
+        Ok(Err(m)) => format!("(err {})", quote(m)),
+        Err(_) => {
+            stats.bump("impl_panic_loc", &last_panic_loc());
+            format!("(panic {})", quote(&last_panic_loc()))
+        }
+    };
+    stats.bump("gua_result", match &res { Ok(Ok(_)) => "ok", Ok(Err(_)) => "err", Err(_) => "panic" });
+    format!("(case {id} (kind gua) (st{}) (response {}) (impl {r}))", dump_st(ctx, syms), quote(response))
+}
+
+fn run_gua(id: &str, fake: &Fake, ctx: &mut Context, syms: &[ExprRef], response: &str, stats: &mut Stats) -> String {
+    let mut sc = fake.start(&["unsat".to_string(), response.to_string()]);
+    for s in syms {
+        sc.declare_const(ctx, *s).expect("declare");
+    }
+    gua_step(id, &mut sc, ctx, syms, response, stats)
+}
+
+fn sexp_to_string(x: &Sexp) -> String {
+    match x {
+        Sexp::Atom(a) => a.clone(),
+        Sexp::Str(s) => quote(s),
+        Sexp::List(l) => format!("({})", l.iter().map(sexp_to_string).collect::<Vec<_>>().join(" ")),
+    }
 }
